@@ -25,10 +25,15 @@ use std::sync::Mutex;
 use std::time::{Duration, Instant};
 
 const CHILD_ENV: &str = "MC_C20_CHILD";
-/// a case that needs longer than this when run alone is reported as non-termination
+/// a case that needs more CPU time than this when run alone is reported as non-termination
 const ALONE_LIMIT_S: f64 = 10.0;
+/// wall-clock cap of a single-case run (a case that sleeps / deadlocks instead of spinning)
+const ALONE_WALL_CAP_S: f64 = 120.0;
 /// a child whose case log does not advance for this long is killed and the case re-run alone
 const STALL_S: f64 = 25.0;
+/// allowance for a child to start up (load seeds, build its family and the fixtures) before its
+/// first case is logged; generous because the machine may be heavily loaded
+const STARTUP_S: f64 = 300.0;
 /// address-space limit of a child (KiB) so that a runaway allocation aborts the child only
 const CHILD_AS_LIMIT_KB: u64 = 8 * 1024 * 1024;
 const MAX_ABORTS: u64 = 40;
@@ -135,6 +140,8 @@ fn specs(tier: Tier, seeds: &std::sync::Arc<Vec<Seed>>) -> Vec<Spec> {
     for pos in escape_positions() {
         v.push(seq(format!("escape:{}", pos.0), ESCAPE_CHARS, &[], esc_len, "", pos, 2500));
     }
+    v.push(seq("ext-chars".into(), EXT_CHARS, &[], tier.pick(3, 5), "", ("", "", "", R_EXT), 150));
+    v.push(Spec { name: "ext-subst".into(), cost: 150, build: Box::new(|| Box::new(ListFam { name: "ext-subst".into(), items: ext_mutations().into_iter().map(|b| (b, R_EXT)).collect(), shard: 0 })) });
     v.push(Spec {
         name: "bytes".into(),
         cost: 6000,
@@ -178,7 +185,7 @@ fn specs(tier: Tier, seeds: &std::sync::Arc<Vec<Seed>>) -> Vec<Spec> {
                 cost: 2500,
                 build: Box::new(move || {
                     let doc: J = serde_json::from_slice(&s[i].bytes).unwrap_or(J::Null);
-                    Box::new(JsonMutFam::new(&s[i].name, &doc, s[i].route, if is_est(&s[i].name) { EST_KEYS } else { &[] }, if q { 6 } else { usize::MAX }))
+                    Box::new(JsonMutFam::new(&s[i].name, &doc, s[i].route, if is_est(&s[i].name) { EST_KEYS } else { &[] }, if q { 4 } else { usize::MAX }))
                 }),
             });
             if !q && pairs_for(&seed.name) {
@@ -252,6 +259,37 @@ fn first_line(s: &str) -> String {
     s.lines().next().unwrap_or("").chars().take(140).collect()
 }
 
+/// first line of a panic message with the input-dependent parts removed (digit runs -> N,
+/// back-quoted / double-quoted fragments -> …) so that one defect has one fingerprint
+fn norm_msg(s: &str) -> String {
+    let mut out = String::new();
+    let mut chars = s.chars().peekable();
+    while let Some(c) = chars.next() {
+        if c.is_ascii_digit() {
+            while chars.peek().is_some_and(|d| d.is_ascii_digit()) {
+                chars.next();
+            }
+            out.push('N');
+        } else if c == '`' || c == '"' {
+            let mut closed = false;
+            for d in chars.by_ref() {
+                if d == c {
+                    closed = true;
+                    break;
+                }
+            }
+            out.push(c);
+            out.push('…');
+            if closed {
+                out.push(c);
+            }
+        } else {
+            out.push(c);
+        }
+    }
+    out
+}
+
 fn lossy(b: &[u8]) -> String {
     let s = String::from_utf8_lossy(b);
     if s.len() > 600 {
@@ -314,7 +352,7 @@ fn child_main(tier: Tier, spec: &str) -> i32 {
             sample = Some(json!({"family": fam, "index": index, "input": lossy(bytes), "accepted_somewhere": run.any_ok}));
         }
         for p in run.panics.drain(..) {
-            let fp = format!("panic:{}:{}", p.label, first_line(&p.msg));
+            let fp = format!("panic:{}:{}", p.label, norm_msg(&first_line(&p.msg)));
             let n = seen_fp.entry(fp.clone()).or_insert(0);
             *n += 1;
             if *n == 1 && res_panics.len() < 40 {
@@ -358,6 +396,13 @@ fn child_main(tier: Tier, spec: &str) -> i32 {
                 }
             };
             run.stage_log = std::fs::File::create(format!("{dir}/{id}.stage")).ok();
+            // self-test of the watchdog plumbing (never set by the check itself)
+            if std::env::var("MC_C20_DEBUG_SPIN").is_ok() {
+                let mut x = 0u64;
+                loop {
+                    x = std::hint::black_box(x.wrapping_add(1));
+                }
+            }
             let route = spec["route"].as_u64().unwrap_or(R_ALL);
             one(&mut run, spec["index"].as_u64().unwrap_or(0), spec["family"].as_str().unwrap_or("single"), &bytes, route);
         }
@@ -427,7 +472,10 @@ impl Parent {
     }
 
     /// run one child to its end, watching its case log
-    fn run_child(&self, spec: &J, id: &str, stall_s: f64) -> ChildEnd {
+    /// `stall_s`: wall seconds without progress of the case log after which the child is killed;
+    /// `cpu_limit_s`: (single-case runs) CPU seconds of the child after which it is killed — the
+    /// verdict "non-termination" is taken on CPU time so that it does not depend on machine load.
+    fn run_child(&self, spec: &J, id: &str, stall_s: f64, cpu_limit_s: Option<f64>) -> ChildEnd {
         let mut child = match self.spawn(spec, id) {
             Ok(c) => c,
             Err(e) => return ChildEnd::Machinery(format!("cannot spawn child: {e}")),
@@ -467,10 +515,18 @@ impl Parent {
                 let cur = read_logged_index(&log);
                 if cur != last.0 {
                     last = (cur, Instant::now());
-                } else if last.1.elapsed().as_secs_f64() > stall_s {
+                } else if last.1.elapsed().as_secs_f64() > if cur.is_none() { stall_s.max(STARTUP_S) } else { stall_s } {
                     let _ = child.kill();
                     let _ = child.wait();
                     return ChildEnd::Stalled;
+                }
+                if let Some(limit) = cpu_limit_s {
+                    let cpu = std::fs::read_to_string(format!("/proc/{}/schedstat", child.id())).ok().and_then(|t| t.split_whitespace().next().and_then(|x| x.parse::<f64>().ok())).unwrap_or(0.0) / 1e9;
+                    if cpu > limit {
+                        let _ = child.kill();
+                        let _ = child.wait();
+                        return ChildEnd::Stalled;
+                    }
                 }
             }
         }
@@ -489,7 +545,7 @@ impl Parent {
         }
         let spec = json!({"mode": "single", "dir": self.dir, "id": id, "input": input, "route": route, "family": family, "index": index});
         let t0 = Instant::now();
-        let end = self.run_child(&spec, &id, ALONE_LIMIT_S);
+        let end = self.run_child(&spec, &id, ALONE_WALL_CAP_S, Some(ALONE_LIMIT_S));
         let secs = t0.elapsed().as_secs_f64();
         let stage = std::fs::read_to_string(format!("{}/{id}.stage", self.dir)).ok().and_then(|s| s.lines().next().map(|l| l.trim().to_string())).unwrap_or_else(|| "<before first call>".to_string());
         match end {
@@ -700,7 +756,7 @@ fn parent(tier: Tier) -> i32 {
                 let fname = fam.name();
                 let id = p.new_id("shard");
                 let spec = json!({"mode": "range", "dir": p.dir, "id": id, "fam": sh.fam, "start": sh.start, "end": sh.end});
-                match p.run_child(&spec, &id, STALL_S) {
+                match p.run_child(&spec, &id, STALL_S, None) {
                     ChildEnd::Done(r, keys) => merge_result(&ctx, &stats, &fname, &r, &keys, &slow),
                     ChildEnd::Machinery(m) => *machinery.lock().unwrap() = Some(m),
                     end @ (ChildEnd::Died(_) | ChildEnd::Stalled) => {
@@ -719,6 +775,11 @@ fn parent(tier: Tier) -> i32 {
                                         aborts.fetch_add(1, Ordering::Relaxed);
                                         ctx.violation(format!("abort:{stage}:{}", first_line(&how2).split(';').next().unwrap_or("")), format!("process died ({how2}) in `{stage}`; in the sweep: {how}; family {fname} case {i} input: {}", lossy(&inp.bytes)), rd);
                                     }
+                                    (ChildEnd::Died(how), Alone::Finished(..)) if how.starts_with("signal 9;") || how.starts_with("signal 15;") => {
+                                        // SIGKILL / SIGTERM come from outside (the address-space limit turns a
+                                        // runaway allocation into an abort, not an OOM kill): not a verdict
+                                        *machinery.lock().unwrap() = Some(format!("child {id} was killed from outside ({how}) at family {fname} case {i}; the case finishes when run alone"));
+                                    }
                                     (ChildEnd::Died(how), Alone::Finished(r, keys, _)) => {
                                         aborts.fetch_add(1, Ordering::Relaxed);
                                         merge_result(&ctx, &stats, &fname, &r, &keys, &slow);
@@ -730,7 +791,7 @@ fn parent(tier: Tier) -> i32 {
                                     }
                                     (_, Alone::TimedOut(stage, secs)) => {
                                         aborts.fetch_add(1, Ordering::Relaxed);
-                                        ctx.violation(format!("non-termination:{stage}"), format!("a single case does not finish within {secs:.1}s when run alone (in `{stage}`); family {fname} case {i} input: {}", lossy(&inp.bytes)), rd);
+                                        ctx.violation(format!("non-termination:{stage}"), format!("a single case does not finish within {ALONE_LIMIT_S} s of CPU time (or {ALONE_WALL_CAP_S} s wall) when run alone (killed after {secs:.1}s wall, in `{stage}`); family {fname} case {i} input: {}", lossy(&inp.bytes)), rd);
                                     }
                                     (_, Alone::Died(stage, how2)) => {
                                         aborts.fetch_add(1, Ordering::Relaxed);
@@ -805,21 +866,22 @@ fn parent(tier: Tier) -> i32 {
             "schema_tokens": {"alphabet": SCHEMA_TOKENS, "max_len": tier.pick(3, 4), "positions": schema_positions().iter().map(|p| p.0).collect::<Vec<_>>()},
             "schema_tokens_wide": {"alphabet_size": SCHEMA_TOKENS_WIDE.len(), "max_len": tier.pick(2, 3), "positions": schema_positions_wide().iter().map(|p| p.0).collect::<Vec<_>>()},
             "string_escapes": {"alphabet": ESCAPE_CHARS, "max_len": tier.pick(3, 5), "positions": escape_positions().iter().map(|p| p.0).collect::<Vec<_>>()},
+            "extension_values": {"alphabet": EXT_CHARS, "max_len": tier.pick(3, 5), "seeds": EXT_VALID, "seed_mutations": "every single-character substitution and insertion over the alphabet, deletion and prefix", "entry_points": "RestrictedExpression::new_{ip,decimal,datetime,duration} through Context::from_pairs, Expression::new_* through eval_expression"},
             "token_sweep_entry_points": "policy text: PolicySet::from_str (+ formatter and full pipeline when it parses), Policy::parse, Template::parse; `top` position also Expression / RestrictedExpression / EntityUid / names / extension constructors; schema text: Schema and SchemaFragment ::from_cedarschema_str, schema_str_to_json_with_resolved_types. The FromStr variants and the FFI text wrappers see the bytes, nest, cross and short-seed substitution families",
             "bytes": if q { "all byte strings of length <= 1 (257) plus all length-2 strings over a 40-byte alphabet (1600), into every entry point (text, JSON, protobuf, reader-based)" } else { "all byte strings of length <= 2 (65793) into every entry point (text, JSON, protobuf, reader-based)" },
             "byte_substitution": if q {
-                "every position of a seed document x alphabet, plus every single-byte deletion and every proper prefix; alphabet: 20 bytes for the 5 text seeds, 70 bytes (all tags of fields 0-7, 0x7f/0x80/0x81/0xc3/0xfe/0xff) for the 8 protobuf seeds, 10 bytes for JSON seeds of at most 700 bytes (larger JSON seeds: structural mutations only)"
+                "every position of a seed document x alphabet, plus every single-byte deletion and every proper prefix; alphabet: 12 bytes for the 5 text seeds, 54 bytes (0x00-0x2f = all tags of fields 0-5 and small varints, 0x7f/0x80/0x81/0xc3/0xfe/0xff) for the 8 protobuf seeds, 10 bytes for JSON seeds of at most 700 bytes (larger JSON seeds: structural mutations only)"
             } else {
                 "every position of a seed document x alphabet, plus every single-byte deletion and every proper prefix; alphabet: all 256 values for the 5 text and 8 protobuf seeds, 40 bytes for JSON seeds of at most 1300 bytes, 10 bytes for larger JSON seeds"
             },
             "json_mutations": if q {
-                "every single structural mutation of each of the 16 JSON seeds: delete member/element, 12 retypes (null, true, 0, -1, 2^63, -2^63-1, 1.5, 1e400, \"\", \"x\", [], {}), wrap 1 and 48 deep in array and in object, every string -> 22 pool strings + the first 6 strings of the document, every key -> escape keys (__entity/__extn/__expr) + the first 6 keys of the document (+ 38 EST operator keys for policy documents), duplicate key (same value / null)"
+                "every single structural mutation of each of the 16 JSON seeds: delete member/element, 12 retypes (null, true, 0, -1, 2^63, -2^63-1, 1.5, 1e400, \"\", \"x\", [], {}), wrap 1 and 48 deep in array and in object, every string -> 22 pool strings + the first 4 strings of the document, every key -> escape keys (__entity/__extn/__expr) + the first 4 keys of the document (+ 38 EST operator keys for policy documents), duplicate key (same value / null)"
             } else {
                 "every single structural mutation of each of the 16 JSON seeds (as quick, but every string -> every other string of the document and every key -> every other key), plus every ordered pair of reduced mutations (delete, null, one retype, duplicate key) of 11 seeds (policy, template, schema, entities, entity, context, entity uid, FFI policy set, formatting / context-parsing / scope-variables calls)"
             },
             "nesting_depths": nest_depths(tier),
             "nesting_depth": MAX_DEPTH,
-            "per_case_limit_s": ALONE_LIMIT_S,
+            "per_case_cpu_limit_s_when_run_alone": ALONE_LIMIT_S,
         }),
         &[
             "each case runs on the main thread of a child process with the inherited stack limit (see child_stack_limit_kb) and an 8 GiB address-space limit",
